@@ -9,9 +9,12 @@
   lchown, lsetxattr, and what `os.RemoveAll` does).  `LocalFS` joins the node's name to its root
   and issues the calls listed below in the order of the Go code.
 
-  What is abstracted: ownership, permission bits and extended attributes are one `attr` stamp per
-  object (`none` = whatever creation gave it); a time stamp is `some t` when set explicitly and
-  `none` when the kernel set it ("now"); the kernel's limit on nested links is `fuel`.
+  Attributes: every object carries its owner (`none` = the creating process's), its permission,
+  set-id and sticky bits (`none` = the creation mode under the process's umask) and its extended
+  attributes; `chown` of a non-directory clears the set-user-ID bit, and the set-group-ID bit when
+  the group-execute bit is set, as Linux does (also for root).  A time stamp is `some t` when set
+  explicitly and `none` when the kernel set it ("now"); the kernel's limit on nested links is `fuel`.
+  `user.*` extended attributes exist on regular files and directories only (EPERM elsewhere).
 -/
 import Desync.Model.Archive
 
@@ -20,11 +23,18 @@ namespace Desync.LFS
 abbrev Name := Bytes
 abbrev RPath := List Name
 
+/-- owner, mode bits (permissions, set-id, sticky: the low 12 bits) and extended attributes -/
+structure Attr where
+  owner : Option (Nat × Nat) := none
+  mode : Option Nat := none
+  xattrs : List (Bytes × Bytes) := []
+  deriving DecidableEq, Repr, Inhabited
+
 inductive Obj
-  | dir (attr : Option Nat) (mtime : Option Nat)
-  | file (data : Bytes) (attr : Option Nat) (mtime : Option Nat)
-  | symlink (target : Bytes) (attr : Option Nat)
-  | dev (major minor : Nat) (attr : Option Nat) (mtime : Option Nat)
+  | dir (attr : Attr) (mtime : Option Nat)
+  | file (data : Bytes) (attr : Attr) (mtime : Option Nat)
+  | symlink (target : Bytes) (attr : Attr)
+  | dev (major minor : Nat) (attr : Attr) (mtime : Option Nat)
   deriving DecidableEq, Repr, Inhabited
 
 def Obj.isDir : Obj → Bool
@@ -96,7 +106,7 @@ def parentIsDir (fs : FS) (rp : RPath) : Bool :=
 /-- `lstat`: the object a path names, links not followed -/
 def lstat (fs : FS) (p : List Name) : Except Err Obj := do
   let rp ← resolve fs false p
-  if rp = [] then pure (.dir none none)        -- the top directory
+  if rp = [] then pure (.dir {} none)        -- the top directory
   else match fs.get rp with
     | some o => pure o
     | none => .error .noent
@@ -105,7 +115,7 @@ def mkdir (fs : FS) (p : List Name) : Except Err FS := do
   let rp ← resolve fs false p
   if rp = [] || (fs.get rp).isSome then .error .exist
   else if !parentIsDir fs rp then .error .noent
-  else pure ((fs.set rp (.dir none none)).touch rp.dropLast)
+  else pure ((fs.set rp (.dir {} none)).touch rp.dropLast)
 
 /-- `os.RemoveAll`: the name and everything beneath it; a missing name is not an error -/
 def removeAll (fs : FS) (p : List Name) : Except Err FS :=
@@ -137,21 +147,27 @@ def createTrunc (fs : FS) (p : List Name) (data : Bytes) : Except Err FS := do
   | none =>
     if rp = [] then .error .isdir
     else if !parentIsDir fs rp then .error .noent
-    else pure ((fs.set rp (.file data none none)).touch rp.dropLast)
+    else pure ((fs.set rp (.file data {} none)).touch rp.dropLast)
 
 def symlinkAt (fs : FS) (target : Bytes) (p : List Name) : Except Err FS := do
   let rp ← resolve fs false p
   if rp = [] || (fs.get rp).isSome then .error .exist
   else if !parentIsDir fs rp then .error .noent
-  else pure ((fs.set rp (.symlink target none)).touch rp.dropLast)
+  else pure ((fs.set rp (.symlink target {})).touch rp.dropLast)
 
 def mknod (fs : FS) (p : List Name) (major minor : Nat) : Except Err FS := do
   let rp ← resolve fs false p
   if rp = [] || (fs.get rp).isSome then .error .exist
   else if !parentIsDir fs rp then .error .noent
-  else pure ((fs.set rp (.dev major minor none none)).touch rp.dropLast)
+  else pure ((fs.set rp (.dev major minor {} none)).touch rp.dropLast)
 
-def Obj.withAttr (o : Obj) (a : Option Nat) : Obj :=
+def Obj.attr : Obj → Attr
+  | .dir a _ => a
+  | .file _ a _ => a
+  | .symlink _ a => a
+  | .dev _ _ a _ => a
+
+def Obj.withAttr (o : Obj) (a : Attr) : Obj :=
   match o with
   | .dir _ m => .dir a m
   | .file d _ m => .file d a m
@@ -165,12 +181,46 @@ def Obj.withMtime (o : Obj) (t : Option Nat) : Obj :=
   | .symlink tg a => .symlink tg a
   | .dev ma mi a _ => .dev ma mi a t
 
-/-- `chown`/`chmod` (follow = true), `lchown`/`lsetxattr` (follow = false): stamp the object -/
-def setAttr (fs : FS) (follow : Bool) (p : List Name) (a : Nat) : Except Err FS := do
+/-- what `chown` does to the mode bits of a non-directory: S_ISUID (04000) goes, S_ISGID (02000)
+    goes when S_IXGRP (010) is set -/
+def clearSetID (m : Nat) : Nat :=
+  let m := if m / 2048 % 2 = 1 then m - 2048 else m
+  if m / 1024 % 2 = 1 ∧ m / 8 % 2 = 1 then m - 1024 else m
+
+/-- `chown` (follow = true) / `lchown` (follow = false) -/
+def chown (fs : FS) (follow : Bool) (p : List Name) (uid gid : Nat) : Except Err FS := do
   let rp ← resolve fs follow p
   match fs.get rp with
   | none => if rp = [] then pure fs else .error .noent
-  | some o => pure (fs.set rp (o.withAttr (some a)))
+  | some o =>
+    let a := o.attr
+    let mode := if o.isDir then a.mode else a.mode.map clearSetID
+    pure (fs.set rp (o.withAttr { a with owner := some (uid, gid), mode := mode }))
+
+/-- `chmod` (follows links): the permission, set-id and sticky bits -/
+def chmod (fs : FS) (p : List Name) (mode : Nat) : Except Err FS := do
+  let rp ← resolve fs true p
+  match fs.get rp with
+  | none => if rp = [] then pure fs else .error .noent
+  | some o => pure (fs.set rp (o.withAttr { o.attr with mode := some (mode % 4096) }))
+
+def isUserXattr (k : Bytes) : Bool := k.take 5 = [117, 115, 101, 114, 46]   -- "user."
+
+def xaSet (m : List (Bytes × Bytes)) (k v : Bytes) : List (Bytes × Bytes) :=
+  if m.any (·.1 = k) then m.map (fun p => if p.1 = k then (k, v) else p) else m ++ [(k, v)]
+
+/-- `lsetxattr` (links not followed) for one attribute: `user.*` attributes are refused (EPERM) on
+    anything but regular files and directories -/
+def lsetxattr (fs : FS) (p : List Name) (k v : Bytes) : Except Err FS := do
+  let rp ← resolve fs false p
+  match fs.get rp with
+  | none => if rp = [] then pure fs else .error .noent
+  | some o =>
+    let allowed := match o with
+      | .dir .. | .file .. => true
+      | _ => !isUserXattr k
+    if !allowed then .error .other
+    else pure (fs.set rp (o.withAttr { o.attr with xattrs := xaSet o.attr.xattrs k v }))
 
 /-- `os.Chtimes` (follows links) -/
 def chtimes (fs : FS) (p : List Name) (t : Nat) : Except Err FS := do
@@ -190,8 +240,8 @@ structure LState where
   fs : FS
   dirTimes : List (List Name × Nat) := []   -- `fs.dirTimes`: path as handed to the system calls, mtime
 
-/-- the attribute stamp a node's ownership/permissions/xattrs amount to -/
-def attrOf (m : Meta) : Nat := (m.uid.toNat * 65536 + m.gid.toNat) * 65536 + m.mode.toNat % 65536
+/-- `FilemodeToStatMode(n.Mode)` as handed to `chmod`: the entry's stat mode; the kernel keeps the low 12 bits -/
+def modeOf (m : Meta) : Nat := m.mode.toNat % 4096
 
 /-- `filepath.Join(fs.Root, n.Name)` as a component list (`Join` cleans lexically; node names
     contain no ".." — `Proofs/ArchiveConfined.lean`) -/
@@ -206,12 +256,20 @@ def sys (fs : FS) (r : Except Err FS) : Except FS FS :=
   | .ok fs' => .ok fs'
   | .error _ => .error fs
 
+/-- the `for key, value := range n.Xattrs { xattr.LSet(dst, key, value) }` loop (map order is irrelevant:
+    keys are distinct) -/
+def setXattrs (fs : FS) (dst : List Name) : List (Bytes × Bytes) → Except FS FS
+  | [] => .ok fs
+  | (k, v) :: rest => do
+    let fs ← sys fs (lsetxattr fs dst k v)
+    setXattrs fs dst rest
+
 /-- `Set{Dir,File}Permissions` + the device variant: chown (follow), xattrs (no follow), chmod (follow) -/
 def setPerms (o : Opts) (fs : FS) (dst : List Name) (m : Meta) : Except FS FS := do
   let fs ← if o.noSameOwner then pure fs else do
-    let fs ← sys fs (setAttr fs true dst (attrOf m))
-    if m.xattrs = [] then pure fs else sys fs (setAttr fs false dst (attrOf m))
-  if o.noSamePermissions then pure fs else sys fs (setAttr fs true dst (attrOf m))
+    let fs ← sys fs (chown fs true dst m.uid.toNat m.gid.toNat)
+    setXattrs fs dst m.xattrs
+  if o.noSamePermissions then pure fs else sys fs (chmod fs dst (modeOf m))
 
 def createDir (o : Opts) (root : List Name) (s : LState) (name : Bytes) (m : Meta) : Except FS LState := do
   let dst := dstOf root name
@@ -248,8 +306,8 @@ def createSymlink (o : Opts) (root : List Name) (s : LState) (name : Bytes) (m :
   let fs ← unlinkIfThere s.fs dst
   let fs ← sys fs (symlinkAt fs target dst)
   let fs ← if o.noSameOwner then pure fs else do
-    let fs ← sys fs (setAttr fs false dst (attrOf m))
-    if m.xattrs = [] then pure fs else sys fs (setAttr fs false dst (attrOf m))
+    let fs ← sys fs (chown fs false dst m.uid.toNat m.gid.toNat)
+    setXattrs fs dst m.xattrs
   pure { s with fs := fs }
 
 def createDevice (o : Opts) (root : List Name) (s : LState) (name : Bytes) (m : Meta) (major minor : Nat) : Except FS LState := do
